@@ -12,7 +12,8 @@ from authlib.jose import JsonWebKey, KeySet, OctKey, RSAKey, ECKey, OKPKey, Json
 
 RULE = ("fn cases: int_to_base64 / base64_to_int / as_dict / thumbprint on generated numbers and member lists against the Lean model; "
         "key cases: one (key type, curve/size, import form, private/public) per case, exported in every form, re-imported and compared with the "
-        "original cryptography object; EC keys with a leading-zero coordinate are forced per curve; non-trivial = distinct case")
+        "original cryptography object; EC keys with a leading-zero coordinate are forced per curve; oct keys given as text with white space / BOM / NUL at the ends; "
+        "public exports of private JWKs carrying every common member and RSA oth; non-trivial = distinct case")
 ASSUMPTIONS = ["PEM / DER / encrypted PEM codecs and key generation are cryptography primitives (exercised, not modelled)",
                "as_dict is modelled for string-valued members; key_ops lists are exercised on the real code only"]
 
